@@ -129,6 +129,9 @@ pub struct QuerySpec {
     /// the CTE shadows the table. Needs a catalogue with schema-qualified paths.
     #[serde(default)]
     pub shadow_cte: Option<String>,
+    /// The grouping keys are grouped on but not selected (`SELECT count(*) FROM t GROUP BY k`).
+    #[serde(default)]
+    pub hide_keys: bool,
 }
 
 impl QuerySpec {
@@ -198,6 +201,9 @@ impl QuerySpec {
                 None => format!("{} AS {}", k.expr, k.alias),
             })
             .collect();
+        if self.hide_keys {
+            items.clear();
+        }
         items.extend(self.extra_select.iter().map(|(e, a)| format!("{} AS {}", e, a)));
         items.extend(self.aggs.iter().map(|a| format!("{} AS {}", a.sql(population), a.alias)));
         let mut s = format!("SELECT {} FROM {}{}", items.join(", "), self.from_clause(), self.where_clause());
